@@ -58,7 +58,9 @@ SPEC = {
              "zero and nonzero values, select_rows with all/no/some rows, all 16 (a,b) class pairs of gemv in rotation, triu / symmetric round trips, the "
              "missing-diagonal pipeline). Dimension-consistent raw encodings (unsorted, duplicated; all 2x2 and every 3rd 3x3 encoding with column "
              "sequences of length <= 2) also run is_triu, index_to_coord at every index and the diagonal counters. fgemv: binary64-level gemv / gemv_T / "
-             "symv on 12 shapes x all coefficient class pairs incl. -0 x finite / non-finite garbage in y. A case is non-trivial when its input stores at "
+             "symv on 12 shapes x all coefficient class pairs incl. -0: exactly-summable few-bit dyadic inputs with finite / non-finite garbage in y "
+             "(bitwise, order-independent by construction, binding) and general floats (binding to 2^-45 of the sum of absolute products against "
+             "the exact dyadic dense meaning; bitwise identity with the transcribed order is information only). A case is non-trivial when its input stores at "
              "least one entry; distinct = distinct (op,input) JSON"),
     "level": "proof",
     "explanation": "Unbounded Coq theorems (Props/C16.v) state that each operation of the Gallina CSC model has the dense meaning and preserves canonical form, for every matrix over any commutative ring. The model is tied to the Rust code by running both on the same inputs (exact arithmetic: i64 / small-integer f64) and comparing canonical-form + dense equality inside Coq by vm_compute.",
